@@ -63,6 +63,10 @@ pub struct Epoch {
     pub rplan: IoPlan,
     /// crash during the write: only this fraction (per mille) of the bytes is durable
     pub crash_permille: Option<u32>,
+    /// the disk fills up after this fraction (per mille) of the bytes: the
+    /// writer starts returning errors there
+    #[serde(default)]
+    pub disk_full_permille: Option<u32>,
 }
 
 #[derive(Clone, Debug, Serialize, Deserialize, PartialEq)]
@@ -86,6 +90,12 @@ fn draw_epoch(rng: &mut Prng, allow_crash: bool) -> Epoch {
         wplan: if rng.chance(1, 5) { IoPlan::clean() } else { IoPlan::benign(rng) },
         rplan: if rng.chance(1, 5) { IoPlan::clean() } else { IoPlan::benign(rng) },
         crash_permille: if crash { Some(rng.below(1000) as u32) } else { None },
+        disk_full_permille: if rng.chance(1, 3) {
+            // often within the last bytes, where buffered writers hide errors
+            Some(if rng.chance(1, 2) { 990 + rng.below(10) as u32 } else { rng.below(1000) as u32 })
+        } else {
+            None
+        },
     }
 }
 
@@ -121,6 +131,35 @@ fn pk_read(bytes: &[u8], spec: &Spec, fmt: Fmt, plan: &IoPlan, st: &mut Stats) -
     res
 }
 
+/// Disk-full fault: the device accepts only `permille` of `full` and then
+/// fails every write. A write that reports success must have stored everything.
+fn disk_full_check(
+    what: &str,
+    full: &[u8],
+    permille: u32,
+    io: &IoPlan,
+    st: &mut Stats,
+    write: impl FnOnce(&mut FaultyWriter) -> std::io::Result<()>,
+) -> Option<Verdict> {
+    let cap = (full.len() as u64 * permille as u64 / 1000) as usize;
+    if cap >= full.len() {
+        return None;
+    }
+    let plan = IoPlan { fail_at: Some(cap), ..io.clone() };
+    let mut w = FaultyWriter::new(&plan);
+    let r = catch(|| write(&mut w));
+    st.fault("disk_full");
+    match r {
+        Ok(Err(_)) => None,
+        Ok(Ok(())) => Some(viol(
+            "WriteErrorSwallowed",
+            what,
+            format!("writing the {what} to a device that fills up after {cap} of {} bytes returned Ok(()); only {} bytes were stored", full.len(), w.out.len()),
+        )),
+        Err(p) => Some(viol("WritePanic", what, format!("writing the {what} to a full device panicked at {}: {}", p.site(), p.msg))),
+    }
+}
+
 fn viol(class: &str, what: &str, detail: String) -> Verdict {
     Verdict::Violation(Viol::new(class, format!("{class}:{what}"), detail))
 }
@@ -149,6 +188,7 @@ impl Check for C17 {
                 "interrupted_read",
                 "interrupted_write",
                 "crash_mid_write",
+                "disk_full",
                 "pool_gt_1",
                 "four_way_proof_check",
                 "downsize",
@@ -284,6 +324,12 @@ fn run(s: &Scn, st: &mut Stats) -> Verdict {
         if bytes != cur_vk.to_bytes(e.wfmt.to()) {
             return viol("SerializationChanged", "vk-write-bytes", format!("epoch {i}: bytes written through a short-writing writer differ from to_bytes ({:?})", e.wfmt));
         }
+        if let Some(pm) = e.disk_full_permille {
+            let fmt = e.wfmt.to();
+            if let Some(v) = disk_full_check("vk", &bytes, pm, &e.wplan, st, |w| cur_vk.write(w, fmt)) {
+                return v;
+            }
+        }
         if let Some(pm) = e.crash_permille {
             // crash mid-write: only a durable prefix survives the restart
             let keep = (bytes.len() as u64 * pm as u64 / 1000) as usize;
@@ -326,6 +372,12 @@ fn run(s: &Scn, st: &mut Stats) -> Verdict {
         let bytes = w.out;
         if bytes != src.to_bytes(e.wfmt.to()) {
             return viol("SerializationChanged", "pk-write-bytes", format!("epoch {i}: bytes written through a short-writing writer differ from to_bytes"));
+        }
+        if let Some(pm) = e.disk_full_permille {
+            let fmt = e.wfmt.to();
+            if let Some(v) = disk_full_check("pk", &bytes, pm, &e.wplan, st, |w| src.write(w, fmt)) {
+                return v;
+            }
         }
         if let Some(pm) = e.crash_permille {
             let keep = (bytes.len() as u64 * pm as u64 / 1000) as usize;
@@ -407,6 +459,12 @@ fn run(s: &Scn, st: &mut Stats) -> Verdict {
         }
         io_stats(st, "write", w.counts.short, w.counts.interrupted, w.counts.calls);
         let bytes = w.out;
+        if let Some(pm) = e.disk_full_permille {
+            let fmt = e.wfmt.to();
+            if let Some(v) = disk_full_check("params", &bytes, pm, &e.wplan, st, |w| params.write_custom(w, fmt)) {
+                return v;
+            }
+        }
         let mut r = FaultyReader::new(&bytes, &e.rplan);
         let p1 = match catch(|| ParamsKZG::<Bls12>::read_custom(&mut r, e.rfmt.to())) {
             Ok(Ok(p)) => p,
